@@ -7,60 +7,90 @@ Representation (verified here against the real bodies on the DelayedCall model o
 """
 import z3
 from pyvc.values import SNum, SBool, Obj, mk_num, mk_bool, to_term, to_bool_term
-from pyvc.contracts import Spec, Contract, verify
+from pyvc.contracts import Spec, Contract, verify, Sim
 from pyvc.interp import BoundMethod
 
 Q = 'yabgp.core.timer.BGPTimer.'
 
 
-def _now(c):
+class SimExc(Exception):
+    def __init__(self, cls, fields=None):
+        Exception.__init__(self)
+        self.cls = cls
+        self.fields = fields or {}
+
+
+def now(s):
     from pyvc.twisted_model import reactor_now
-    return SNum(reactor_now(c.it))
+    return SNum(reactor_now(s.it))
 
 
-def rep_havoc(timer):
+def rep_havoc(s, timer):
     """representation fields that the abstract contract does not speak about"""
     if 'delayed_call' in timer.f:
         dc = timer.f['delayed_call']
-        h = [(timer, 'delayed_call')]
+        s.dont_care(timer, 'delayed_call')
         if isinstance(dc, Obj):
-            h += [(dc, k) for k in dc.f]
-        return h
-    return []
+            for k in dc.f:
+                s.dont_care(dc, k)
 
 
-def spec_cancel(c, self):
-    sp = Spec(havoc=rep_havoc(self))
-    if c.branch(to_bool_term(self.f['_active'])):
-        sp.updates = [(self, '_active', False), (self, 'status', False)]
-        sp.effects = [('TimerCancel', self)]
-    return sp
+# ---- abstract timer actions (the single source used by every other spec)
+def t_cancel(s, t):
+    if s.branch(to_bool_term(s.get(t, '_active'))):
+        s.set(t, '_active', False)
+        s.set(t, 'status', False)
+        s.eff('TimerCancel', t)
 
 
-def spec_reset(c, self, seconds_fromnow):
-    sp = Spec(havoc=rep_havoc(self))
-    secs = seconds_fromnow
-    if not c.branch(to_bool_term(self.f['_active'])):
-        # starts a fresh DelayedCall: Twisted asserts delay >= 0
-        neg = c.it.m.compare(c.it, 'Lt', secs, 0)
-        if c.truth(neg):
-            sp.updates = [(self, 'status', True)]
-            sp.exc = ('AssertionError', {})
-            return sp
-    deadline = c.it.m.binop(c.it, 'Add', _now(c), secs)
-    sp.updates = [(self, 'status', True), (self, '_active', True), (self, '_deadline', deadline)]
-    sp.effects = [('TimerSet', self, secs)]
-    return sp
+def t_reset(s, t, secs):
+    if not s.branch(to_bool_term(s.get(t, '_active'))):
+        # starts a fresh DelayedCall: Twisted's callLater asserts delay >= 0
+        neg = s.it.m.compare(s.it, 'Lt', secs, 0)
+        if s.c.truth(neg):
+            s.set(t, 'status', True)
+            raise SimExc('AssertionError')
+    s.set(t, 'status', True)
+    s.set(t, '_active', True)
+    s.set(t, '_deadline', s.add(now(s), secs))
+    s.eff('TimerSet', t, secs)
 
 
-def spec_active(c, self):
-    sp = Spec(havoc=rep_havoc(self))
-    sp.updates = [(self, 'status', True)]
-    sp.ret = self.f['_active']
-    if isinstance(sp.ret, SBool):
-        sp.ret = c.branch(sp.ret.t)
-    return sp
+def t_active(s, t):
+    s.set(t, 'status', True)
+    a = s.get(t, '_active')
+    return s.branch(to_bool_term(a))
 
+
+def wrap(fn):
+    """Sim program -> spec function"""
+    def spec(c, *args):
+        s = Sim(c)
+        try:
+            s.ret = fn(s, *args)
+        except SimExc as e:
+            s.exc = (e.cls, e.fields)
+        return s.spec()
+    spec.__name__ = getattr(fn, '__name__', 'spec')
+    return spec
+
+
+def p_cancel(s, self):
+    rep_havoc(s, self)
+    t_cancel(s, self)
+
+
+def p_reset(s, self, seconds_fromnow):
+    rep_havoc(s, self)
+    t_reset(s, self, seconds_fromnow)
+
+
+def p_active(s, self):
+    rep_havoc(s, self)
+    return t_active(s, self)
+
+
+spec_cancel, spec_reset, spec_active = wrap(p_cancel), wrap(p_reset), wrap(p_active)
 
 CONTRACTS = [
     Contract(Q + 'cancel', spec_cancel),
@@ -74,9 +104,9 @@ def build_concrete(it, nargs):
     p = it.p
     prog = it.prog
     cls = prog.func('yabgp.core.timer.BGPTimer')
-    now = z3.Real('now')
-    p.assume(now >= 0)
-    p.ghost['reactor_now'] = now
+    nowt = z3.Real('now')
+    p.assume(nowt >= 0)
+    p.ghost['reactor_now'] = nowt
     status = SBool(z3.Bool('status'))
     owner = Obj('Owner', tag='owner')
     t = Obj(cls, {'name': 'a timer', 'status': status, 'callable': BoundMethod(cls.lookup('active'), owner)},
@@ -121,13 +151,14 @@ def translate_effects(it, t, eff0):
     it.p.effects[eff0:] = out
 
 
+def _abs(it, roots, eff0):
+    abstract(roots[0])
+    translate_effects(it, roots[0], eff0)
+
+
 def verify_all(prog):
     results = []
     for name, spec, nargs in (('cancel', spec_cancel, 0), ('reset', spec_reset, 1), ('active', spec_active, 0)):
-        def on_abs(it, roots, eff0):
-            t = roots[0]
-            abstract(t)
-            translate_effects(it, t, eff0)
-        r = verify(prog, Q + name, lambda it, n=nargs: build_concrete(it, n), spec, abstraction=on_abs)
+        r = verify(prog, Q + name, lambda it, n=nargs: build_concrete(it, n), spec, abstraction=_abs)
         results.append(r)
     return results
